@@ -119,7 +119,8 @@ class Prop(core.Prop):
                     yield {'coord': c, 'rep': rep, 'ctype': 'i'}
                     yield {'coord': c, 'rep': rep, 'ctype': 'f'}
                     # unsigned storage (level numbers, category codes): differences must not wrap around
-                    yield {'coord': c, 'rep': rep, 'ctype': 'B'}
+                    if min(c) >= 0 and max(c) <= 255:
+                        yield {'coord': c, 'rep': rep, 'ctype': 'B'}
         for unit in ('hours', 'days'):
             for desc in (False, True):
                 for tzkind in ('utc', 'naive', '+0530', '-0500'):
